@@ -94,15 +94,19 @@ def run(ctx):
         ctx.sample({"virtual_time_behaviour": vb[0]})
         ctx.sample({"virtual_time_trace_head": rows[:12]})
     # 3. real sockets, natTimeout 300 ms
-    rb = U.gen(ctx, "Gen_UdpNatReal.cfg", 90 if q else 500, seed=ctx.seed + 977)
-    trace, sums = U.run_real(ctx, rb, "c14real")
-    U.validate(ctx, trace, "UdpNatTraceReal.cfg", U.PROPS["C14"] + ["SrcStable", "SrcPrivate", "OnePerClient"], "real sockets, natTimeout 300 ms", rb)
-    U.summary_violations(ctx, sums, rb, "real sockets, natTimeout 300 ms", {"returned", "leak"})
-    ctx.cov["evaluations"] += len(rb)
-    ctx.cov["distinct_nontrivial"] += U.count(rb, nontrivial_real)
-    ctx.cov["handle_return_ms_max"] = max(s["return_ms"] for s in sums)
-    ctx.cov["reclaim_after_close_ms_max"] = max(s["reclaim_ms"] for s in sums)
-    ctx.cov["real_expiries_observed"] = sum(1 for x in vlib.read_ndjson(trace) if x.get("ev") == "M" and x["m"] == "NatRemove")
+    fams = U.real_families(ctx, "c14real", 55 if q else 350, 30 if q else 150, U.PROPS["C14"] + ["SrcStable", "SrcPrivate", "OnePerClient"],
+                           seed_off=977, want={"returned", "leak"})
+    rb = []
+    ctx.cov["real_expiries_observed"] = 0
+    for fam, behs, trace, sums in fams:
+        rb += behs
+        ctx.cov["evaluations"] += len(behs)
+        ctx.cov["distinct_nontrivial"] += U.count(behs, nontrivial_real)
+        ctx.cov["handle_return_ms_max"] = max([ctx.cov.get("handle_return_ms_max", 0)] + [x["return_ms"] for x in sums])
+        ctx.cov["reclaim_after_close_ms_max"] = max([ctx.cov.get("reclaim_after_close_ms_max", 0)] + [x["reclaim_ms"] for x in sums])
+        ctx.cov["real_expiries_observed"] += sum(1 for x in vlib.read_ndjson(trace) if x.get("ev") == "M" and x["m"] == "NatRemove")
+        ctx.cov.setdefault("behaviours_closing_the_listener_with_live_associations", 0)
+        ctx.cov["behaviours_closing_the_listener_with_live_associations"] += sum(1 for x in sums if x.get("live_at_close", 0) > 0)
     if rows is None and not rb:
         raise vlib.Inconclusive("no driver covered C14")
     if not q:
